@@ -74,16 +74,33 @@ Fixpoint pp (slot : nat) (e : expr) {struct e} : list pt :=
     | Lambda _ _ _ _ _ _ _ body => PK "lambda" :: PK ":" :: pp slot_Lambda_body body
     | NamedExpr t v => PN t :: PK ":=" :: pp slot_NamedExpr_value v
     | Attribute v a => pparen (int_literal v) (pp slot_Attribute_value v) ++ [PK "."; PN a]
-    | Call f args _ =>
+    | Call f args kws =>
         pp slot_Call_func f ++ PK "(" ::
-        (match args with
-         | [x] => pp slot_Call_onlyarg x
-         | _ => join [PK ","] (map (pp slot_Call_arg) args)
+        (match args, kws with
+         | [x], [] => pp slot_Call_onlyarg x
+         | _, _ => join [PK ","] (map (pp slot_Call_arg) args ++ map (fun kw => match kw with
+                          | (None, v) => PK "**" :: pp slot_Call_kwarg v
+                          | (Some k, v) => PN k :: PK "=" :: pp slot_Call_kwarg v
+                          end) kws)
          end) ++ [PK ")"]
+    | Starred v => PK "*" :: pp slot_Starred_value v
+    | EList l => PK "[" :: join [PK ","] (map (pp slot_List_elt) l) ++ [PK "]"]
+    | ESet l => PK "{" :: join [PK ","] (map (pp slot_Set_elt) l) ++ [PK "}"]
+    | ETuple l =>
+        match l with
+        | [x] => PK "(" :: pp slot_Tuple_elt x ++ [PK ","; PK ")"]
+        | _ => PK "(" :: join [PK ","] (map (pp slot_Tuple_elt) l) ++ [PK ")"]
+        end
     | Subscript v s => pp slot_Subscript_value v ++ PK "[" :: pp slot_Subscript_slice s ++ [PK "]"]
     | _ => []
     end in
   pparen (Nat.ltb slot (node_prec e)) body.
+
+Definition kwp (kw : option ident * expr) : list pt :=
+  match kw with
+  | (None, v) => PK "**" :: pp slot_Call_kwarg v
+  | (Some k, v) => PN k :: PK "=" :: pp slot_Call_kwarg v
+  end.
 
 Definition pbody (e : expr) : list pt :=
   match e with
@@ -103,12 +120,20 @@ Definition pbody (e : expr) : list pt :=
   | Lambda _ _ _ _ _ _ _ body => PK "lambda" :: PK ":" :: pp slot_Lambda_body body
   | NamedExpr t v => PN t :: PK ":=" :: pp slot_NamedExpr_value v
   | Attribute v a => pparen (int_literal v) (pp slot_Attribute_value v) ++ [PK "."; PN a]
-  | Call f args _ =>
+  | Call f args kws =>
       pp slot_Call_func f ++ PK "(" ::
-      (match args with
-       | [x] => pp slot_Call_onlyarg x
-       | _ => join [PK ","] (map (pp slot_Call_arg) args)
+      (match args, kws with
+       | [x], [] => pp slot_Call_onlyarg x
+       | _, _ => join [PK ","] (map (pp slot_Call_arg) args ++ map kwp kws)
        end) ++ [PK ")"]
+  | Starred v => PK "*" :: pp slot_Starred_value v
+  | EList l => PK "[" :: join [PK ","] (map (pp slot_List_elt) l) ++ [PK "]"]
+  | ESet l => PK "{" :: join [PK ","] (map (pp slot_Set_elt) l) ++ [PK "}"]
+  | ETuple l =>
+      match l with
+      | [x] => PK "(" :: pp slot_Tuple_elt x ++ [PK ","; PK ")"]
+      | _ => PK "(" :: join [PK ","] (map (pp slot_Tuple_elt) l) ++ [PK ")"]
+      end
   | Subscript v s => pp slot_Subscript_value v ++ PK "[" :: pp slot_Subscript_slice s ++ [PK "]"]
   | _ => []
   end.
@@ -116,21 +141,31 @@ Lemma pp_unfold slot e : pp slot e = pparen (Nat.ltb slot (node_prec e)) (pbody 
 Proof. destruct e; reflexivity. Qed.
 
 (* the core: the node kinds above, in the shapes the parser produces *)
+Definition is_starred (e : expr) : bool := match e with Starred _ => true | _ => false end.
+
+(* [core e]: e is in the core; a starred expression only as an element of a display or a call.  Operand positions use
+   [core x && negb (is_starred x)]. *)
 Fixpoint core (e : expr) {struct e} : bool :=
+  let ec := fun x => core x && negb (is_starred x) in
   match e with
   | Name _ | Constant _ => true
-  | BinOp l _ r => core l && core r
-  | UnaryOp _ v => core v
-  | BoolOp _ vs => Nat.leb 2 (length vs) && forallb core vs
-  | Compare l ops cs => core l && Nat.eqb (length ops) (length cs) && Nat.leb 1 (length cs) && forallb core cs
-  | IfExp t b o => core t && core b && core o
-  | Lambda [] [] None [] [] None [] body => core body
-  | NamedExpr _ v => core v
-  | Attribute v _ => core v
-  | Call f args [] => core f && forallb core args
-  | Subscript v s => core v && core s && match s with ETuple _ | Slice _ _ _ | Starred _ => false | _ => true end
+  | BinOp l _ r => ec l && ec r
+  | UnaryOp _ v => ec v
+  | BoolOp _ vs => Nat.leb 2 (length vs) && forallb (fun x => core x && negb (is_starred x)) vs
+  | Compare l ops cs => ec l && Nat.eqb (length ops) (length cs) && Nat.leb 1 (length cs)
+                        && forallb (fun x => core x && negb (is_starred x)) cs
+  | IfExp t b o => ec t && ec b && ec o
+  | Lambda [] [] None [] [] None [] body => ec body
+  | NamedExpr _ v => ec v
+  | Attribute v _ => ec v
+  | Call f args kws => ec f && forallb core args && forallb (fun kw => core (snd kw) && negb (is_starred (snd kw))) kws
+  | Subscript v s => ec v && ec s && match s with ETuple _ | Slice _ _ _ => false | _ => true end
+  | Starred v => ec v
+  | EList l | ETuple l => forallb core l
+  | ESet l => Nat.leb 1 (length l) && forallb core l
   | _ => false
   end.
+Definition ecore (e : expr) : bool := core e && negb (is_starred e).
 
 (* ---------- the parser ---------- *)
 Inductive chain := CNone | CBool (o : boolop) | CCmp.
@@ -139,7 +174,8 @@ Inductive mode :=
 | MExpr (n : nat)                            (* an expression whose top operator has precedence <= n *)
 | MLoop (n : nat) (lft : expr) (ch : chain)  (* what may follow [lft] at level n *)
 | MAtom
-| MArgs (acc : list expr).                   (* the rest of a call's arguments *)
+| MElems (close : string) (acc : list expr) (comma : bool)   (* elements of a display / parenthesised form up to [close] *)
+| MArgs (acc : list expr) (kws : list (option ident * expr)).  (* the rest of a call's arguments *)
 
 Definition lambda0 (b : expr) : expr := Lambda [] [] None [] [] None [] b.
 
@@ -190,6 +226,19 @@ Definition extend_cmp (ch : chain) (lft : expr) (o : cmpop) (c : expr) : expr :=
   | _, _ => Compare lft [o] [c]
   end.
 
+(* what a closed element list is: a parenthesised single expression without a comma is that expression *)
+Definition finish (close : string) (acc : list expr) (comma : bool) : option expr :=
+  if String.eqb close ")" && negb comma then
+    match acc with
+    | [e] => if is_starred e then None else Some e
+    | [] => Some (ETuple [])
+    | _ => None
+    end
+  else Some (ETuple (rev acc)).
+
+(* the carrier of a call's argument lists *)
+Definition args_carrier (acc : list expr) (kws : list (option ident * expr)) : expr := Call (Name "") (rev acc) (rev kws).
+
 Fixpoint pc (f : nat) (m : mode) (ts : list pt) {struct f} : option (expr * list pt) :=
   match f with
   | O => None
@@ -200,14 +249,37 @@ Fixpoint pc (f : nat) (m : mode) (ts : list pt) {struct f} : option (expr * list
         | PN i :: r => Some (Name i, r)
         | PL c :: r => Some (Constant c, r)
         | PK s :: r =>
-            if String.eqb s "(" then
-              match pc f' (MExpr TOP) r with
-              | Some (e, PK s' :: r') => if String.eqb s' ")" then Some (e, r') else None
+            if String.eqb s "(" then pc f' (MElems ")" [] false) r
+            else if String.eqb s "[" then
+              match pc f' (MElems "]" [] false) r with
+              | Some (ETuple l, r') => Some (EList l, r')
+              | _ => None
+              end
+            else if String.eqb s "{" then
+              match pc f' (MElems "}" [] false) r with
+              | Some (ETuple (x :: l), r') => Some (ESet (x :: l), r')
               | _ => None
               end
             else None
         | [] => None
         end
+    | MElems close acc comma =>
+        if hd_is close ts then
+          match finish close acc comma with Some e => Some (e, tl ts) | None => None end
+        else
+          match (if hd_is "*" ts
+                 then match pc f' (MExpr slot_Starred_value) (tl ts) with
+                      | Some (v, r) => Some (Starred v, r)
+                      | None => None
+                      end
+                 else pc f' (MExpr TOP) ts) with
+          | Some (e, PK s :: r) =>
+              if String.eqb s "," then pc f' (MElems close (e :: acc) true) r
+              else if String.eqb s close then
+                match finish close (e :: acc) comma with Some x => Some (x, r) | None => None end
+              else None
+          | _ => None
+          end
     | MExpr n =>
         match classify_prefix ts with
         | PLam r =>
@@ -241,8 +313,8 @@ Fixpoint pc (f : nat) (m : mode) (ts : list pt) {struct f} : option (expr * list
         match classify ts with
         | KDot a r => pc f' (MLoop n (Attribute lft a) CNone) r
         | KLPar r =>
-            match pc f' (MArgs []) r with
-            | Some (ETuple args, r') => pc f' (MLoop n (Call lft args []) CNone) r'
+            match pc f' (MArgs [] []) r with
+            | Some (Call _ args kws, r') => pc f' (MLoop n (Call lft args kws) CNone) r'
             | _ => None
             end
         | KLBr r =>
@@ -286,15 +358,45 @@ Fixpoint pc (f : nat) (m : mode) (ts : list pt) {struct f} : option (expr * list
             else Some (lft, ts)
         | KOther => Some (lft, ts)
         end
-    | MArgs acc =>
-        if hd_is ")" ts then Some (ETuple (rev acc), tl ts)
+    | MArgs acc kws =>
+        if hd_is ")" ts then Some (args_carrier acc kws, tl ts)
         else
-          match pc f' (MExpr TOP) ts with
-          | Some (a, PK s :: r) =>
-              if String.eqb s "," then pc f' (MArgs (a :: acc)) r
-              else if String.eqb s ")" then Some (ETuple (rev (a :: acc)), r) else None
-          | _ => None
-          end
+          let after := fun (acc' : list expr) (kws' : list (option ident * expr)) (rest : list pt) =>
+            match rest with
+            | PK s :: r =>
+                if String.eqb s "," then pc f' (MArgs acc' kws') r
+                else if String.eqb s ")" then Some (args_carrier acc' kws', r) else None
+            | _ => None
+            end in
+          if hd_is "**" ts then
+            match pc f' (MExpr slot_Call_kwarg) (tl ts) with
+            | Some (v, rest) => after acc ((None, v) :: kws) rest
+            | None => None
+            end
+          else if hd_is "*" ts then
+            match pc f' (MExpr slot_Starred_value) (tl ts) with
+            | Some (v, rest) => after (Starred v :: acc) kws rest
+            | None => None
+            end
+          else
+            match ts with
+            | PN k :: PK s :: r =>
+                if String.eqb s "=" then
+                  match pc f' (MExpr slot_Call_kwarg) r with
+                  | Some (v, rest) => after acc ((Some k, v) :: kws) rest
+                  | None => None
+                  end
+                else
+                  match pc f' (MExpr TOP) ts with
+                  | Some (a, rest) => after (a :: acc) kws rest
+                  | None => None
+                  end
+            | _ =>
+                match pc f' (MExpr TOP) ts with
+                | Some (a, rest) => after (a :: acc) kws rest
+                | None => None
+                end
+            end
     end
   end.
 
@@ -318,7 +420,7 @@ Definition norm_tok (t : tok) : list pt :=
   match t with
   | TName s => [PN s]
   | TLit c _ => [PL c]
-  | TP s => map PK (words s)
+  | TP s => if String.eqb s ",)" then [PK ","; PK ")"] else map PK (words s)
   | TFText _ => [PK "<f-string>"]
   end.
 Definition norm (ts : list tok) : list pt := flat_map norm_tok ts.
